@@ -521,6 +521,19 @@ class Run:
                 out = 'raised ' + exc_name(e)
             self.obs.append('res ' + out)
             self.obs.append('ret ' + ret)
+        # the program lets go of the world itself: a controller that is attached still knows its world
+        ctrls = [(oid, ob) for oid, ob in self.objs.items() if ob is not None
+                 and desper.Controller in type(ob).__mro__ and getattr(ob, 'entity', None) is not None
+                 and ob.world is self.w]
+        if ctrls and not self.direct:
+            self.w = None
+            gc.collect()
+            for oid, ob in ctrls:
+                try:
+                    alive = ob.world is not None and ob.world.entity_exists(ob.entity) in (True, False)
+                except Exception:       # noqa
+                    alive = False
+                self.obs.append(f'ctlworld {oid} {int(alive)}')
         return canon(self.obs), self.hints
 
 
